@@ -249,3 +249,29 @@ def run(pid, tier):
                           ['projection vlib/project.py is mechanical (lookups only)', 'TLC evaluates VrpModel definitions correctly',
                            'generated problems are valid per the documentation (integer stratum, index locations, explicit matrices)'])
     return rc
+
+
+def replay(pid, path):
+    """Re-judges the recorded (problem, solution) pair of a replay file with the oracle and, unless VERIF_REPLAY_NO_SOLVE is set,
+    solves the recorded case again (same configuration; the solver itself is not deterministic) and judges the new solution."""
+    r = json.load(open(path))
+    rp = r['replay']
+    c, inv = rp['case'], rp.get('invariant')
+    recs = [project.project(c['problem'], c['matrices'], rp['solution'], c['id'])]
+    if not os.environ.get('VERIF_REPLAY_NO_SOLVE'):
+        c2 = copy.deepcopy(c); c2['id'] = c['id'] + '-again'
+        o = solve(pid + '-replay', [c2], jobs=1)[c2['id']]
+        if o['status'] == 'ok':
+            recs.append(project.project(c2['problem'], c2['matrices'], o['solution'], c2['id']))
+        else:
+            print('re-solve: status %s %s' % (o['status'], o.get('error', '')[:200]))
+    res = judge(pid + '-replay-o', recs)
+    hit = [(name, rid) for name, _, rid in res.fails if name in ATTR[pid]]
+    for name, rid in hit:
+        print('%s: %s violates %s' % ('recorded solution' if rid == c['id'] else 'new solution', rid, name))
+    if any(rid == c['id'] and (inv is None or name == inv) for name, rid in hit):
+        print('VIOLATION property=%s replay=%s' % (pid, path))
+        print('  %s: %s' % (r.get('key'), r.get('description')))
+        return 1
+    print('the recorded solution is accepted by the oracle now (invariant %s)' % inv)
+    return 0
